@@ -2,7 +2,7 @@
 import srvprops
 
 PROP = "C06"
-THEOREMS = ["C06_model_smoke"]
+THEOREMS = ["C06_preauth_is_inert", "C06_phase_monotone", "C06_no_reidentify", "C06_conns_wf_reachable"]
 
 
 def run(tier, replay=None):
